@@ -1,4 +1,5 @@
 """Run Kani harnesses of /verif/kani against the real crate (hooks on) and parse the results."""
+import fcntl
 import filecmp
 import os
 import re
@@ -111,14 +112,22 @@ def run_harnesses(harnesses, repo, work, root, log, jobs=12, timeout=3000, extra
         cmd += ["--harness", s["harness"]]
     cmd.append("--exact")
     t0 = time.time()
+    # one Kani session at a time: the harness crate, its target directory and the goto binaries are shared
+    lockf = open(os.path.join(work, "kani.lock"), "w")
+    fcntl.flock(lockf, fcntl.LOCK_EX)
     try:
-        p = subprocess.run(cmd, cwd=d, env=kani_env(work), stdout=subprocess.PIPE, stderr=subprocess.STDOUT, text=True, timeout=timeout)
-        out = p.stdout
-        timed_out = False
-    except subprocess.TimeoutExpired as e:
-        out = (e.stdout or b"").decode() if isinstance(e.stdout, bytes) else (e.stdout or "")
-        timed_out = True
-        subprocess.run(["pkill", "-f", "cbmc"], check=False)
+        d = prepare(repo, work, root)
+        try:
+            p = subprocess.run(cmd, cwd=d, env=kani_env(work), stdout=subprocess.PIPE, stderr=subprocess.STDOUT, text=True, timeout=timeout)
+            out = p.stdout
+            timed_out = False
+        except subprocess.TimeoutExpired as e:
+            out = (e.stdout or b"").decode() if isinstance(e.stdout, bytes) else (e.stdout or "")
+            timed_out = True
+            subprocess.run(["pkill", "cbmc"], check=False)
+    finally:
+        fcntl.flock(lockf, fcntl.LOCK_UN)
+        lockf.close()
     with open(os.path.join(work, "kani-last.log"), "w") as f:
         f.write(out)
     if "error: could not compile" in out or "error[E" in out:
